@@ -45,7 +45,7 @@ DOCS = ["the alpha thing", "dataset name", "learning rate used", "a thing", "som
 MEMBERS = ["alpha", "beta", "gamma", "delta", "eps", "np", "tf", "a b"]
 INTS = [0, 1, 5, -3, 42, 100]
 FLOATS = [0.0, 0.5, 1.0, -2.5, 0.001, 3.14]
-STRS = ["", "mnist", "foo", "bar baz", "a_b", "~/data", "5"]
+STRS = ["", "mnist", "foo", "bar baz", "a_b", "~/data", "5", "''"]  # "''" (two quote characters) is the longest string set_value must leave alone
 ODD_STRS = ["None", "'q'", '"dq"']  # rare: trigger the quote-stripping of set_value / the none_types test of function emit
 
 
@@ -810,7 +810,11 @@ def oracle(chk, case, obs, desc, fail):
         e1 = sorted((k, json.dumps(v, sort_keys=True)) for k, v in pe["ok"])
         g1 = sorted((k, json.dumps(rval(v), sort_keys=True)) for k, v in ge["ok"])
         if e1 != g1:
-            fail(dict(base, field="parse_args_empty", kind="defaults-differ"), "parse_args([]) = %s, described %s" % (g1, e1))
+            ed, gd = {k: v for k, v in pe["ok"]}, {k: rval(v) for k, v in ge["ok"]}
+            kinds = {default_kind(ed[k].get("one"), gd.get(k, {}).get("one")) if "one" in ed[k] else "differs" for k in ed if ed[k] != gd.get(k)}
+            # one narrowly classified cause (e.g. the quote stripping of set_value) keeps its own kind; anything else is `defaults-differ`
+            kind = kinds.pop() if len(kinds) == 1 and set(ed) == set(gd) and kinds <= {"quote-wrapped-str-stripped"} else "defaults-differ"
+            fail(dict(base, field="parse_args_empty", kind=kind), "parse_args([]) = %s, described %s" % (g1, e1))
     # parse_args with one legal value per option: must succeed when every probe for those values succeeded
     if len(obs["parses"]) > 1 and case.get("legal_argv_ok"):
         g2 = obs["parses"][1]
@@ -1143,6 +1147,7 @@ CORNERS = [
         _p("a", {"k": "scalar", "s": "str"}, {"k": "str", "v": "'q'"}), _p("b", {"k": "scalar", "s": "str"}, {"k": "str", "v": "None"}),
         _p("c", {"k": "literal", "members": [{"k": "s", "v": "'q'"}, {"k": "s", "v": "eps"}]}),
         _p("d", {"k": "optional", "s": "int"}, {"k": "none"})]},
+    {"name": "F", "doc": "Summary.", "returns": None, "params": [_p("a", {"k": "optional", "s": "str"}, {"k": "str", "v": "'q'"})]},
     # the witnesses of the Lean negations
     {"name": "F", "doc": "Summary.", "returns": None, "params": [_p("x", {"k": "scalar", "s": "int"}, doc="the x")]},
     {"name": "F", "doc": "Summary.", "returns": None, "params": [_p("x", {"k": "scalar", "s": "int"}, {"k": "int", "v": 5})]},
